@@ -27,6 +27,7 @@ CONSTANTS
   MaxSteps = {MaxSteps}
   SinglePassThreshold = 2
 INVARIANT InvSorted
+INVARIANT InvLabelsAttached
 INVARIANT InvPartition
 INVARIANT InvGetItem
 INVARIANT InvSampleWellFormed
